@@ -20,6 +20,10 @@ SER_MODULES = ["hugr._serialization.tys", "hugr._serialization.ops", "hugr._seri
                "hugr._serialization.extension", "hugr._serialization.testing_hugr"]
 
 
+_BOUNDS = {"Ge": "minimum", "Gt": "exclusiveMinimum", "Le": "maximum", "Lt": "exclusiveMaximum", "MultipleOf": "multipleOf",
+           "MinLen": "minLength", "MaxLen": "maxLength"}
+
+
 class Unsupported(Exception):
     pass
 
@@ -241,6 +245,10 @@ class SchemaDeriver:
                         sch = self.disc_union(mod, base, self.const(fi["discriminator"]), refs)
                     elif fi:
                         sch = {**sch, **self.constraints(fi, sch)}
+                    elif isinstance(extra, ast.Call) and u(extra.func).split(".")[-1] in _BOUNDS and len(extra.args) + len(extra.keywords) == 1 and isinstance(
+                            (extra.args[0] if extra.args else extra.keywords[0].value), ast.Constant):
+                        # annotated_types.Ge(0) and friends: a numeric bound, which pydantic checks and writes into the schema
+                        sch = {**sch, _BOUNDS[u(extra.func).split(".")[-1]]: (extra.args[0] if extra.args else extra.keywords[0].value).value}
                     elif u(extra).split("(")[0].split(".")[-1] not in ("WrapValidator",):
                         raise Unsupported(f"Annotated metadata {u(extra)[:60]}")
                 return sch
